@@ -123,10 +123,16 @@ void read_adjacency_data(const boost::filesystem::path &filename,
  *
  * @param[in] filename Name of the file containing the data
  * @param[in] assortative Whether the affinity matrix is assortative
- * @param[in,out] w Vector containing the values of the Affinity tensor
+ * @param[in] nof_groups Number of groups (each line must carry that many values)
+ * @param[in,out] w Vector containing the values of the Affinity tensor, sized
+ *               nof_groups * nof_layers (assortative) or nof_groups^2 * nof_layers
+ *
+ * @throws std::runtime_error if the number of values per line, the number of layers
+ *         or a layer id is inconsistent with @c nof_groups and the size of @c w
  */
 void read_affinity_data(const boost::filesystem::path &filename,
                         const bool &assortative,
+                        const size_t &nof_groups,
                         std::vector<double> &w);
 
 /*!
